@@ -148,7 +148,7 @@ func hostileCases() []*hcase {
 	add := func(fam string, b []byte) {
 		cs = append(cs, &hcase{I: len(cs), Fam: fam, raw: append([]byte(nil), b...)})
 	}
-	nm := mkEnt("HOSTILE", nil).nb.Wire()          // 34 bytes at 12..45
+	nm := mkEnt("HOSTILE", nil).nb.Wire()                     // 34 bytes at 12..45
 	scoped := mkEnt("HOSTILE", []string{"AB", "C"}).nb.Wire() // 20 ENC 02 AB 01 C 00
 	qfix := []byte{0, 0x20, 0, 1}
 	rfix := []byte{0, 0x20, 0, 1, 0, 0, 0, 60, 0, 6, 0x60, 0, 10, 0, 0, 1}
